@@ -84,7 +84,7 @@ LIMITS = ["loop_iteration_limit", "output_stream_limit", "local_namespace_limit"
 
 
 def run(case, limits: dict[str, Any], data):
-    env = drv.make_env({"mode": "strict", "extra": True, "limits": limits}, loader=DictLoader(dict(case["partials"])), base=MonEnv)
+    env = drv.make_env({"mode": "strict", "extra": True, "limits": limits, "undefined": case.get("undefined", "default")}, loader=DictLoader(dict(case["partials"])), base=MonEnv)
     _reset()
     return drv.parse_and_render(env, case["source"], data, use_async=case.get("async", False))
 
@@ -170,7 +170,7 @@ def judge(ctx: core.Ctx, case: dict[str, Any]) -> None:
                 ctx.evaluations += 1
                 ctx.violation(
                     f"outcome-altered:{lim}:escapes-{o.err_class}@{core.liquid_frame(core.root_cause(o.exc))}",
-                    f"{lim}={v}: {o.err_class} ({str(o.exc)[:80]}) escapes where the unlimited run gives {base.brief()!r:.120} (measured use {u})",
+                    f"{lim}={v}: {o.err_class} ({drv.safe_str(o.exc)[:80]}) escapes where the unlimited run gives {base.brief()!r:.120} (measured use {u})",
                     {"tb": core.short_tb(o.exc)},
                 )
                 return
@@ -183,12 +183,31 @@ def judge(ctx: core.Ctx, case: dict[str, Any]) -> None:
     ctx.ok((case["source"], case["partials"], case["data"]), nontrivial=base.ok and bool(base.value) and aborted_any)
 
 
+# values a template can put into its local namespace that are not plain data: loop drops (iterating or sizing them must not advance the
+# loop), undefined values, ranges, nested hashes and arrays, block drops, captured Markup
+DROPS = [
+    "{% for i in (1..3) %}{% assign lp = forloop %}{{ lp.index }}{{ forloop.index }}{{ forloop.last }}{% endfor %}",
+    "{% for i in (1..1) %}{% assign lp = forloop %}{{ lp.first }}{{ forloop.index }}{{ forloop.length }}{% endfor %}",
+    "{% tablerow i in (1..3) cols: 2 %}{% assign tl = tablerowloop %}{{ tl.col }}{{ tablerowloop.index }}{% endtablerow %}",
+    "{% for i in (1..2) %}{% for j in (1..2) %}{% assign pl = forloop.parentloop %}{{ pl.index }}{{ forloop.index }}{% endfor %}{% endfor %}",
+    "{% assign u = nosuch %}[{{ u }}]", "{% assign r = (1..5) %}{{ r | size }}", "{% assign hh = h %}{{ hh.a }}", "{% assign dd = d %}{{ dd.list | join: ',' }}",
+    "{% assign oo = os %}{% for o in oo %}{{ o.title }}{% endfor %}", "{% capture cc %}{{ s }}{% endcapture %}{% assign c2 = cc %}{{ c2 }}",
+    "{% assign e = empty %}{% assign b = blank %}{% if '' == e %}E{% endif %}", "{% assign n1 = nil %}{% assign t1 = true %}{{ n1 }}{{ t1 }}",
+    "{% for i in xs %}{% assign keep = forloop %}{% endfor %}{{ keep.length }}",
+]
+
+
 def gen_case(rng) -> dict[str, Any]:
     cfg = tpl.GenCfg(extra=True, max_nodes=14, max_depth=4, wild=0.03, comments=False)
     main, partials, _ = tpl.gen_template_set(rng, cfg, n_partials=rng.randint(0, 3))
     st = tpl.Style(wc=0.05)
     d = tpl.make_data(rng, hostile=0.02, drop=0.05)
     d["pname"] = "p0"
+    if rng.random() < 0.25:
+        snippet = rng.choice(DROPS)
+        und = "strict" if "nosuch" in snippet and rng.random() < 0.5 else "default"
+        return {"source": snippet + (tpl.print_nodes(main, st, rng) if rng.random() < 0.5 else ""), "partials": {n: tpl.print_nodes(b, st, rng) for n, b in partials.items()},
+                "data": V.enc(d), "async": rng.random() < 0.1, "undefined": und}
     return {"source": tpl.print_nodes(main, st, rng), "partials": {n: tpl.print_nodes(b, st, rng) for n, b in partials.items()}, "data": V.enc(d), "async": rng.random() < 0.1}
 
 
